@@ -9,7 +9,7 @@ A *script* is a list of ``str`` lines, every one terminated by ``"\\n"``.  Only 
 APT pdiffs exists: ``Na`` / ``N[,M]c`` / ``N[,M]d`` and text blocks closed by a lone ``.``.
 
 Scripts are always emitted the way ``diff -e`` does it -- last hunk first -- so that no address is
-influenced by an earlier command.  ``style`` is a bit set that varies the spelling, not the meaning:
+influenced by an earlier command.  ``style`` is a bit set (1, 2, 4, 8) that varies the spelling, not the meaning (8: removals as an empty change):
 
   1   one-line ranges are written ``N,N`` instead of ``N``
   2   a change hunk is written as a delete followed by an append (two adjacent commands)
@@ -109,6 +109,9 @@ def emit(hunks, new, style=0):
             out += ["%da\n" % i1] + text + [".\n"]
         elif ndel and text:
             out += [_rng(i1 + 1, i2, style) + "c\n"] + text + [".\n"]
+        elif ndel and style & 8:
+            # a removal spelled as a change to nothing: "N,Mc" directly followed by "."
+            out += [_rng(i1 + 1, i2, style) + "c\n", ".\n"]
         elif ndel:
             out.append(_rng(i1 + 1, i2, style) + "d\n")
         else:
